@@ -19,13 +19,13 @@ theorem filter_le_split (l pre suf : List Pt) (t : Int) (h : l = pre ++ suf)
   rw [h1, h2, List.append_nil]
 
 /-- the samples of a batch up to the timestamp a run is emitted at are the runs up to it -/
-theorem filter_runs_prefix (r : Int) (hr : 0 < r) (b : List Pt) (lastT : Int) (h0 : ∀ p ∈ b, 0 ≤ p.1)
+theorem filter_runs_prefix (r : Int) (hr : 0 < r) (b : List Pt) (lastT : Int) (h0 : ∀ p ∈ b, minInt64 < p.1)
     (hs : Sorted b) (hle : ∀ p ∈ b, p.1 ≤ lastT)
     (A B : List (Int × List Pt)) (w : Int) (g : List Pt) (hruns : runs r b = A ++ (w, g) :: B) :
     b.filter (fun p => p.1 ≤ min w lastT) = (A ++ [(w, g)]).flatMap (·.2) := by
   have hs' : b.Pairwise (fun a b => a.1 ≤ b.1) := hs.imp (fun h => Int.le_of_lt h)
   have hflat := runs_flatten r b
-  have hkeys := runs_keys_sorted r hr b h0 hs'
+  have hkeys := runs_keys_sorted r hr b hs'
   have hwin := runs_window r b
   have hgne : g ≠ [] := runs_ne_nil r b (w, g) (by rw [hruns]; simp)
   rw [hruns] at hflat hkeys
@@ -46,7 +46,7 @@ theorem filter_runs_prefix (r : Int) (hr : 0 < r) (b : List Pt) (lastT : Int) (h
       · have := (List.pairwise_append.mp hkeys).2.2 g' h (w, g) (by simp)
         exact Int.le_of_lt this
       · simp at h; rw [h]; exact Int.le_refl _
-    have h1 := currentWindow_ge (h0 p hpb) hr
+    have h1 := currentWindow_ge (t := p.1) hr
     have h2 := hle p hpb
     simp only [Int.min_def]; split <;> omega
   · intro p hp
@@ -67,13 +67,12 @@ theorem filter_runs_prefix (r : Int) (hr : 0 < r) (b : List Pt) (lastT : Int) (h
     have hsp : s.1 < p.1 := by
       rw [hsplit] at hs
       exact (List.pairwise_append.mp hs).2.2 s hsb p hp
-    have hs0 : 0 ≤ s.1 := h0 s (by rw [hsplit]; exact List.mem_append_left _ hsb)
-    have hgt := (gt_currentWindow_iff hs0 (Int.le_of_lt hsp) hr).mpr (by omega)
+    have hgt := (gt_currentWindow_iff (Int.le_of_lt hsp) hr).mpr (by omega)
     simp only [Int.min_def]; split <;> omega
 
 /-- the counter values `downsampleBatch` emits for a time-ordered batch: at the timestamp of
     every run, the reset-adjusted counter of the batch up to that timestamp -/
-theorem specEmit_counter (r : Int) (hr : 0 < r) (b : List Pt) (lastT : Int) (h0 : ∀ p ∈ b, 0 ≤ p.1)
+theorem specEmit_counter (r : Int) (hr : 0 < r) (b : List Pt) (lastT : Int) (h0 : ∀ p ∈ b, minInt64 < p.1)
     (hs : Sorted b) (hle : ∀ p ∈ b, p.1 ≤ lastT) :
     ∀ (gs A : List (Int × List Pt)), runs r b = A ++ gs →
       (specEmit lastT gs ((A.flatMap (·.2)).map (·.2))).map (fun e => (e.1, e.2.counter)) =
@@ -106,7 +105,7 @@ def batchTs (r : Int) (b : List Pt) (lastT : Int) : List Int := (runs r b).map f
 /-- **the counter sub-chunk of downsampleFloatBatch** is `ctrChunk` of the batch: first raw
     sample, the reset-adjusted counter of the batch at every emission timestamp, last raw sample -/
 theorem floatBatch_counter (r : Int) (hr : 0 < r) (b : List Pt) (lastT lv : Int)
-    (hlast : b.getLast? = some (lastT, lv)) (h0 : ∀ p ∈ b, 0 ≤ p.1) (hs : Sorted b) (c : Chunk)
+    (hlast : b.getLast? = some (lastT, lv)) (h0 : ∀ p ∈ b, minInt64 < p.1) (hs : Sorted b) (c : Chunk)
     (hc : floatBatch b r = some c) :
     c.counter = ctrChunk b (batchTs r b lastT) ∧ c.count.map (·.1) = batchTs r b lastT := by
   have hs' : b.Pairwise (fun a b => a.1 ≤ b.1) := hs.imp (fun h => Int.le_of_lt h)
